@@ -303,6 +303,11 @@ func engineConvert(x *X) {
 		truth[repo] = w.seedConv(root, repo, spec.Repos[i])
 	}
 	tree0 := scanTree(root)
+	legacy0 := filepath.Join(x.root, "legacy0")
+	if ro, _ := p.Extra["ro"].(bool); ro {
+		_ = copyTree(root, legacy0)
+		defer os.RemoveAll(legacy0)
+	}
 	// crash points of the conversion (the directory store writes; the memory store keeps the result in memory)
 	var snaps []crashSnap
 	fs := x.sim.FS
@@ -419,6 +424,55 @@ func engineConvert(x *X) {
 			if !clean() {
 				break
 			}
+		}
+	}
+	// C14 on the same trees: the legacy layout and every interrupted state of its conversion, opened read-only (directory
+	// store, or memory store over the directory), is served without a single mutating filesystem operation
+	if ro, _ := p.Extra["ro"].(bool); ro && clean() {
+		rk := p.Knobs
+		rk.ReadOnly = 1
+		if splitmix(p.Seed^0x70)%2 == 0 {
+			rk.Store = "memdir"
+		} else {
+			rk.Store = "dir"
+		}
+		legacy := legacy0
+		dirs := []crashSnap{{dir: legacy, op: "none", path: "the legacy layout as it was"}}
+		dirs = append(dirs, snaps...)
+		for _, s := range dirs {
+			before := scanTree(s.dir)
+			m0 := x.sim.FS.NMut
+			rw := newWorld(x, rk, s.dir, "read-only")
+			for d := range w.m.usedDigests {
+				rw.m.usedDigests[d] = true
+			}
+			for t := range w.m.usedTags {
+				rw.m.usedTags[t] = true
+			}
+			rw.open()
+			touch(rw)
+			for _, repo := range p.Repos {
+				rw.observe(repo)
+			}
+			rw.settle()
+			func() {
+				defer func() { _ = recover() }()
+				_ = rw.close()
+				rw.settle()
+			}()
+			after := scanTree(s.dir)
+			where := fmt.Sprintf("%s store opened read-only on the state before fs op #%d (%s %s) of a conversion", rk.Store, s.k, s.op, s.path)
+			if d := diffTrees(before, after, true); len(d) > 0 {
+				sort.Strings(d)
+				kind, _, _ := strings.Cut(d[0], " ")
+				x.viol([]string{"C14"}, "ro.tree-changed", kind+" (interrupted conversion)", fmt.Sprintf("%s: the tree changed: %v", where, d))
+				break
+			}
+			if n := x.sim.FS.NMut - m0; n > 0 {
+				x.viol([]string{"C14"}, "ro.mutating-op", "interrupted conversion", fmt.Sprintf("%s: %d mutating filesystem operations were issued", where, n))
+				break
+			}
+			x.out.probe("ro-on-conversion-state")
 		}
 	}
 	nFB, nArt := 0, 0
